@@ -90,6 +90,20 @@ def check_text(acc: Acc, ctx: Ctx, engine, vocab, out_vocab, text: str, family: 
         where = f"{tb[-1].filename.split('/')[-1]}:{tb[-1].name}"
         acc.violate("internal-error", {"type": type(ex).__name__, "where": where}, case, "clean rejection or acceptance",
                     f"{type(ex).__name__}: {ex}", f"{text!r}: internal {type(ex).__name__} in {where}: {str(ex)[:120]}")
+    # the same text loaded into a rule object that is ALREADY loaded: a failed load must not leave the old expression
+    if outcome != "internal" and family in ("edits", "antecedent", "consequent", "depth"):
+        valid = "if a is t then o is p" if engine is ctx.big else "if a is t then o is t"
+        again = fl.Rule.create(valid, engine)
+        parsed = False
+        try:
+            again.parse(text)
+            parsed = True
+            again.load(engine)
+        except Exception:  # noqa: BLE001
+            if parsed and again.is_loaded():
+                acc.violate("loaded-after-failed-load", {"path": "reload"}, case, False, True,
+                            f"{text!r}: a previously loaded rule still reports loaded after re-parsing and a failed load")
+        acc.transitions += 1
     demand = edit in LISTED and ref != "VALID"
     acc.case(text, nontrivial=(ref != "VALID") or edit is None)
     if outcome != "accepted":
